@@ -445,6 +445,22 @@ func (e *Exec) strIndex(s *StrV, i *Term) *Term {
 }
 
 func (e *Exec) strSlice(s *StrV, lo, hi *Term) *StrV {
+	// IP text cut at its zone separator (text[:IndexByte(text, '%')]): the same text without the zone
+	if s.Kind == SIPText && s.Zone != "" && lo.IsConst() && lo.Val == 0 {
+		same := e.tc.Eq(hi, e.ipTextLen(s.IP))
+		if !same.IsTrue() && !same.IsFalse() {
+			// decide it: is the cut exactly at the separator on every input of this path?
+			e.sol.label = "ip-text-cut"
+			r := e.sol.Check(e.tc.Not(same))
+			e.sol.Pop()
+			if r == RUnsat {
+				same = e.tc.Bool(true)
+			}
+		}
+		if same.IsTrue() {
+			return &StrV{Kind: SIPText, IP: s.IP}
+		}
+	}
 	l := int(e.concretize(lo, "string slice lo"))
 	h := int(e.concretize(hi, "string slice hi"))
 	switch s.Kind {
